@@ -218,8 +218,8 @@ var propC15 = &simProp{
 	ID: "C15",
 	Profile: sim.Profile{
 		Name: "C15", Voters: [2]int{1, 5}, NonVoters: [2]int{0, 1}, Phases: [2]int{1, 6},
-		Patterns: []string{"P1", "P2", "P3", "P4", "P4b", "P5", "P6", "P7", "P7", "P8", "P11", "P12", "free", "free", "stopstart", "P10", "P26", "P25", "P22"},
-		Writes:   true, Crashes: true, Stops: true, Snapshots: "both", BigPayload: true, Membership: true, EpilogueET: 40, Prologue: true,
+		Patterns: []string{"P1", "P2", "P3", "P4", "P4b", "P5", "P6", "P7", "P7", "P8", "P11", "P12", "free", "free", "stopstart", "P10", "P26", "P25", "P22", "P32", "P32"},
+		Writes:   true, Crashes: true, Stops: true, Snapshots: "both", BigPayload: true, Membership: true, EpilogueET: 40, Prologue: true, MinorityDown: true,
 		MaxDelayUs: []int{400, 2000, 5000},
 	},
 	Owns: []string{"C15"},
